@@ -1,2 +1,97 @@
-/- stub: line-protocol driver for C20 (to be written) -/
-def main : IO Unit := pure ()
+/- Line-protocol driver of C20: reads documents (as the C++ harness dumped them before handing them to the real
+   `write_XML_file`) and prints what the model of the writer predicts an independent reader finds in the written file
+   ("W" lines, or CRASH), the graph the document denotes ("G" lines = the specification) and the computed exception
+   shapes.  Format: see checks/c20.py `lean_doc_lines`. -/
+import UtapModel.Model.XmlWrite
+import UtapModel.Model.XmlWriteFixed
+open UtapModel.AM
+
+structure PS where
+  d : WDoc := { templs := [] }
+  t : Option WTempl := none
+
+def ltxt (s : String) : Option LTxt :=
+  if s = "-" then none
+  else if s = "1" then some .one
+  else if s.startsWith "A:" then some (.andOne (s.drop 2).toString)
+  else some (.plain (s.drop 2).toString)
+
+def wend (s : String) : WEnd :=
+  let n := (s.drop 1).toString.toNat!
+  if s.startsWith "L" then .loc n else .bp n
+
+def modLast' {α} (f : α → α) : List α → List α
+  | [] => []
+  | [a] => [f a]
+  | a :: r => a :: modLast' f r
+
+def feed (s : PS) (ws : List String) : PS :=
+  let inT (f : WTempl → WTempl) : PS := { s with t := s.t.map f }
+  match ws with
+  | ["templ", n] => { s with t := some { name := n, locs := [], bps := [], init := none, edges := [] } }
+  | ["loc", n, fl, inv, rate] =>
+    inT fun t => { t with locs := t.locs ++ [{ name := n, inv := ltxt inv, rate := ltxt rate,
+                                               urgent := fl = "U" || fl = "B", committed := fl = "C" || fl = "B" }] }
+  | ["bp", n] => inT fun t => { t with bps := t.bps ++ [n] }
+  | ["init", n] => inT fun t => { t with init := if n = "-" then none else some n.toNat! }
+  | ["edge", a, b, c, g, sy, asg, p] =>
+    inT fun t => { t with edges := t.edges ++ [{ src := wend a, dst := wend b, ctrl := c = "1", select := [], guard := ltxt g,
+                                                 sync := ltxt sy, assign := ltxt asg, prob := ltxt p }] }
+  | ["sel", id, ty, nm] =>
+    inT fun t => { t with edges := modLast' (fun e => { e with select := e.select ++ [{ id := id, ty := ty, named := nm = "1" }] }) t.edges }
+  | ["endtempl"] =>
+    match s.t with
+    | some t => { d := { s.d with templs := s.d.templs ++ [t] }, t := none }
+    | none => s
+  | ["proc", n, it, bs] =>
+    { s with d := { s.d with procs := s.d.procs ++ [{ name := n, isTempl := it = "1", bound := (bs.toList.filter (· ≠ '-')).map (· = '1') }] } }
+  | _ => s
+
+def tilde (s : String) : String := s.map (fun c => if c = ' ' then '~' else c)
+def optS (o : Option String) : String := match o with | some s => tilde s | none => "-"
+def flagS : Flag → String
+  | .none => "-"
+  | .urgent => "U"
+  | .committed => "C"
+  | .both => "UC"
+
+def graphLines (pfx : String) (g : Graph) : List String :=
+  g.flatMap fun t =>
+    [s!"{pfx} template {optS t.name}"] ++
+    t.locs.map (fun l => s!"{pfx} location id={optS l.id} name={optS l.name} flag={flagS l.flag} inv={optS l.inv} rate={optS l.rate}") ++
+    t.inits.map (fun i => s!"{pfx} init ref={optS i}") ++
+    t.edges.map (fun e =>
+      s!"{pfx} transition {optS e.src} -> {optS e.tgt} controllable={if e.ctrl then "1" else "0"}" ++
+      String.join (e.labels.map (fun l => s!" {l.1}={tilde l.2}")))
+
+def shapeS : Shape → String
+  | .probabilityDropped => "edge:probability-not-written"
+  | .selectBindingsDropped => "edge:select-bindings-after-first-not-written"
+  | .selectTypeDropped => "edge:select-type-not-written"
+  | .controllableDropped => "edge:controllable-false-not-written"
+  | .branchpointEndpoint => "crash:branchpoint-endpoint-null-location"
+  | .urgentAndCommitted => "location:urgent-and-committed"
+  | .noInit => "crash:template-without-init"
+  | .unboundProcess => "crash:process-with-unbound-parameters"
+
+def report (id : String) (d : WDoc) : List String :=
+  [s!"BEGIN {id}", "SHAPES " ++ " ".intercalate ((docShapes d).eraseDups.map shapeS)] ++
+  (match writeXml d with
+   | none => ["CRASH"]
+   | some x => graphLines "W" (readGraph x)) ++
+  graphLines "V" (readGraph (writeXmlFixed d)) ++
+  graphLines "G" (graphOf d) ++ [s!"END {id}"]
+
+partial def loop (h out : IO.FS.Stream) (id : String) (ps : PS) : IO Unit := do
+  let line ← h.getLine
+  if line.isEmpty then return ()
+  let ws := (line.trimAscii.toString.splitOn " ").filter (· ≠ "")
+  match ws with
+  | ["model", i] => loop h out i {}
+  | ["end"] =>
+    for l in report id ps.d do out.putStrLn l
+    loop h out id {}
+  | _ => loop h out id (feed ps ws)
+
+def main : IO Unit := do
+  loop (← IO.getStdin) (← IO.getStdout) "?" {}
